@@ -107,6 +107,10 @@ def run(ck):
     # of its own - run with the sender gate of C05 (R05.2)
     from . import c05, net
     c05.validate(ck, agg, net.NetNode(ck, "rf24_network", "RF24Network"))
+    # "one transmitted message is delivered at most once": the completed message enters the same storage list as every other frame - the
+    # duplicate / capacity / private-copy rules of the queue (R12.2-R12.5) on every path that appends, the reassembling queue's included
+    from . import c12
+    c12.enqueue_rules(ck, agg, net.queue_field(ck.prog))
     agg.flush()
     ck.floor("R06", "fragment kinds x cache states", nsc, 5)
     ck.floor("R06.4", "re-delivery scenarios after completion", nre, 2)
